@@ -440,3 +440,18 @@ def alet_contract(kind, inner_key):
 
 alet_contract('bool', 'dd.bdd.BDD.let:bool')
 alet_contract('name', 'dd.bdd.BDD.let:name')
+
+
+# ---- support through the handle (C10) -----------------------------------------------------------------------------------------
+for _flag, _ret in ((False, 'set:name'), (True, 'set:int')):
+    _inner = REG['dd.bdd.BDD.support!proved:' + ('levels' if _flag else 'names')]
+
+    def _mk(inner=_inner, flag=_flag, ret=_ret):
+        def conv(c):
+            a = type(c.a)(**{**c.a.__dict__})
+            a.self = c.S
+            return type(c)(**{**c.__dict__, 'a': a})
+        reg(Contract(AB + 'support:' + ('levels' if flag else 'names'), [('self', 'abdd'), ('u', 'handle'), ('as_levels', 'bool')], mgr=MKEY,
+                     pre=lambda c: inner.pre(conv(c)) + [live(c, 'u')], post=lambda c: inner.post(conv(c)), ret=ret, uses=inner.uses,
+                     raises={'ValueError': Raise(when=lambda c: Or(Not(same(c, 'u')), Not(c.S0.dom[absz(c.a.u)])), must=True)}))
+    _mk()
